@@ -40,6 +40,7 @@ def stmt_for(kind, name):
         'future': ['from __future__ import annotations'],
         'globaldecl': ['global %s' % name, '%s = 1' % name],
         'nonlocaldecl': ['nonlocal %s' % name, '%s = 1' % name],
+        'nonlocalread': ['nonlocal %s' % name, '%s = 1' % name],
     }[kind]
 
 
@@ -92,11 +93,13 @@ def render_row(row):
         elif scope == 'method':
             lines = ['class K:', '    def m(self):'] + ind(st, 2) + ['        return self']
         elif scope == 'nested':
-            pre = ['    %s = 0' % name] if kind == 'nonlocaldecl' else []
-            lines = ['def outer():'] + pre + ['    def inner():'] + ind(st, 2) + ['        return 0', '    return inner']
+            pre = ['    %s = 0' % name] if kind in ('nonlocaldecl', 'nonlocalread') else []
+            ret = ['    inner()', '    return %s' % name] if kind == 'nonlocalread' else ['    return inner']
+            lines = ['def outer():'] + pre + ['    def inner():'] + ind(st, 2) + ['        return 0'] + ret
         elif scope == 'inmethod':
-            pre = ['        %s = 0' % name] if kind == 'nonlocaldecl' else []
-            lines = ['class K:', '    def m(self):'] + pre + ['        def inner():'] + ind(st, 3) + ['            return 0', '        return inner']
+            pre = ['        %s = 0' % name] if kind in ('nonlocaldecl', 'nonlocalread') else []
+            ret = ['        inner()', '        return %s' % name] if kind == 'nonlocalread' else ['        return inner']
+            lines = ['class K:', '    def m(self):'] + pre + ['        def inner():'] + ind(st, 3) + ['            return 0'] + ret
     return '\n'.join(lines) + '\n', name
 
 
